@@ -26,17 +26,16 @@ Section C07.
     wf_violation v = true -> roundtrip v = Some v' -> assoc f v' = assoc f v.
   Proof. exact dict_roundtrip_fields. Qed.
 
-  (* 2. MAIN, for the FAITHFUL model (every quirk vector, no hypothesis on the cross-file flag or the error flag:
-        the repaired source gathers the evidence in the parent and lets configuration errors surface; both facts are
-        read from the generated layer): for every worker count, core count, completion order and file list the
-        parallel run yields the multiset of the sequential run and raises iff it raises - provided the parent's
-        evidence loop visits every file (or is not restricted: see 4 for the residual defect) *)
+  (* 2. MAIN, for the FAITHFUL model: every quirk vector, NO flag hypothesis and no side condition.  The repaired
+        source gathers the cross-file evidence in the parent, decides built-in exclusion there on the same path
+        expression as lint_file, and lets configuration errors surface; the three facts are read from the generated
+        layer (a reverting patch breaks this proof).  For every max_workers, core count, completion order and file
+        list the parallel run yields the multiset of the sequential run and raises iff it raises. *)
   Theorem C07_parallel_equals_sequential : forall q mw cpu sched files,
-    (parent_restricts q = false \/ forall f, In f files -> parent_sees f = true) ->
     Permutation sched (seq 0 (List.length files)) ->
     out_equiv (par_run file evidence perfile collect report parent_sees q mw cpu sched files)
               (seq_run file evidence perfile collect report files).
-  Proof. exact (par_equals_seq_faithful file evidence perfile collect report parent_sees perfile_wf report_nil). Qed.
+  Proof. exact (par_equals_seq_source file evidence perfile collect report parent_sees perfile_wf report_nil). Qed.
 
   Theorem C07_parallel_equals_sequential_flag_off : forall q mw cpu sched files,
     q_parent_evidence_raw_path q = false ->
@@ -66,18 +65,6 @@ Section C07.
     exists rest, out_equiv (par_run file evidence perfile collect report parent_sees q mw cpu sched files) (Some (List.concat vss ++ rest)).
   Proof. exact (par_perfile_complete file evidence perfile collect report parent_sees perfile_wf). Qed.
 
-  (* 4. the residual defect, characterised exactly: when the evidence loop decides exclusion on another path
-        expression than lint_file, parallel = sequential iff the fallback is taken, or some file raises (both raise),
-        or the report over the visited files is the report over all files *)
-  Theorem C07_restricted_equals_sequential_iff : forall q mw cpu sched files,
-    parent_restricts q = true ->
-    Permutation sched (seq 0 (List.length files)) ->
-    (out_equiv (par_run file evidence perfile collect report parent_sees q mw cpu sched files)
-               (seq_run file evidence perfile collect report files)
-     <-> (List.length files < effective_workers mw cpu * 2
-          \/ mapM perfile files = None
-          \/ Permutation (report (map collect (filter parent_sees files))) (report (map collect files)))).
-  Proof. exact (par_restricted_equals_seq_iff file evidence perfile collect report parent_sees perfile_wf report_nil). Qed.
 End C07.
 
 (* 5. equal multisets: equal command output (any rule-id filter) and equal exit status *)
@@ -87,7 +74,7 @@ Proof. exact cli_view_equiv. Qed.
 Theorem C07_exit_code_equal : forall cmd a b, out_equiv a b -> exit_code cmd a = exit_code cmd b.
 Proof. exact exit_code_equiv. Qed.
 
-(* 6. regression: the witnesses of the two repaired findings (known.d: "fixed") meet the specification under the
+(* 6. regression: the witnesses of the repaired findings (known.d: "fixed") meet the specification under the
       faithful vector - four files sharing a block with two workers; an invalid configuration value *)
 Theorem C07_crossfile_regression :
   par_run nat nat (fun _ => Some []) (fun f => f) w_report all_seen orchpar_actual (Some 2) 16 [3;1;0;2] [0;1;2;3]
@@ -103,6 +90,12 @@ Theorem C07_errors_regression :
   /\ swallows orchpar_actual = false.
 Proof. exact errors_regression. Qed.
 
+Theorem C07_parent_evidence_regression :
+  par_run nat nat (fun _ => Some []) (fun f => f) w_report none_seen orchpar_actual (Some 2) 16 [3;1;0;2] [0;1;2;3]
+  = seq_run nat nat (fun _ => Some []) (fun f => f) w_report [0;1;2;3]
+  /\ parent_restricts orchpar_actual = false.
+Proof. exact parent_evidence_regression. Qed.
+
 (* the worker count actually used, and the literals the statements above rest on *)
 Theorem C07_effective_workers : forall n cpu,
   effective_workers (Some (S n)) cpu = S n /\ effective_workers None cpu = Nat.min default_max_workers cpu.
@@ -115,11 +108,11 @@ Print Assumptions C07_parallel_equals_sequential_flag_off.
 Print Assumptions C07_parallel_equals_sequential_gen.
 Print Assumptions C07_schedule_independent.
 Print Assumptions C07_perfile_complete.
-Print Assumptions C07_restricted_equals_sequential_iff.
 Print Assumptions C07_cli_output_equiv.
 Print Assumptions C07_exit_code_equal.
 Print Assumptions C07_crossfile_regression.
 Print Assumptions C07_errors_regression.
+Print Assumptions C07_parent_evidence_regression.
 Print Assumptions C07_effective_workers.
 
 (* non-vacuity: six files, three workers (threshold six), a per-file finding in each
